@@ -218,7 +218,10 @@ func (e *Enc) needScat() {
 	I := e.M.smtSort(SI)
 	e.prelude("scat", "(declare-fun scat (Str Str) Str)\n"+
 		"(assert (forall ((a Str) (b Str)) (! (= (slen (scat a b)) "+e.M.iadd("(slen a)", "(slen b)")+") :pattern ((scat a b)))))\n"+
-		"(assert (forall ((a Str) (b Str) (i "+I+")) (! (= (sat (scat a b) i) (ite "+e.M.ilt("i", "(slen a)")+" (sat a i) (sat b "+e.M.isub("i", "(slen a)")+"))) :pattern ((sat (scat a b) i)))))")
+		"(assert (forall ((a Str) (b Str) (i "+I+")) (! (= (sat (scat a b) i) (ite "+e.M.ilt("i", "(slen a)")+" (sat a i) (sat b "+e.M.isub("i", "(slen a)")+"))) :pattern ((sat (scat a b) i)))))\n"+
+		// the empty string is the unit of concatenation
+		"(assert (forall ((a Str)) (! (= (scat a str_empty) a) :pattern ((scat a str_empty)))))\n"+
+		"(assert (forall ((a Str)) (! (= (scat str_empty a) a) :pattern ((scat str_empty a)))))")
 }
 
 func (e *Enc) needSsub() {
@@ -226,7 +229,11 @@ func (e *Enc) needSsub() {
 	I := e.M.smtSort(SI)
 	e.prelude("ssub", "(declare-fun ssub (Str "+I+" "+I+") Str)\n"+
 		"(assert (forall ((a Str) (i "+I+") (j "+I+")) (! (=> (and "+e.M.ile(e.M.ilit(0), "i")+" "+e.M.ile("i", "j")+" "+e.M.ile("j", "(slen a)")+") (= (slen (ssub a i j)) "+e.M.isub("j", "i")+")) :pattern ((ssub a i j)))))\n"+
-		"(assert (forall ((a Str) (i "+I+") (j "+I+") (k "+I+")) (! (=> (and "+e.M.ile(e.M.ilit(0), "i")+" "+e.M.ile("j", "(slen a)")+" "+e.M.ile(e.M.ilit(0), "k")+" "+e.M.ilt("k", e.M.isub("j", "i"))+") (= (sat (ssub a i j) k) (sat a "+e.M.iadd("i", "k")+"))) :pattern ((sat (ssub a i j) k)))))")
+		"(assert (forall ((a Str) (i "+I+") (j "+I+") (k "+I+")) (! (=> (and "+e.M.ile(e.M.ilit(0), "i")+" "+e.M.ile("j", "(slen a)")+" "+e.M.ile(e.M.ilit(0), "k")+" "+e.M.ilt("k", e.M.isub("j", "i"))+") (= (sat (ssub a i j) k) (sat a "+e.M.iadd("i", "k")+"))) :pattern ((sat (ssub a i j) k)))))\n"+
+		// the whole string is a slice of itself
+		"(assert (forall ((a Str)) (! (= (ssub a "+e.M.ilit(0)+" (slen a)) a) :pattern ((ssub a "+e.M.ilit(0)+" (slen a))))))\n"+
+		// a slice of a slice is a slice of the original
+		"(assert (forall ((a Str) (i "+I+") (j "+I+") (k "+I+") (l "+I+")) (! (=> (and "+e.M.ile(e.M.ilit(0), "i")+" "+e.M.ile("i", "j")+" "+e.M.ile("j", "(slen a)")+" "+e.M.ile(e.M.ilit(0), "k")+" "+e.M.ile("k", "l")+" "+e.M.ile("l", e.M.isub("j", "i"))+") (= (ssub (ssub a i j) k l) (ssub a "+e.M.iadd("i", "k")+" "+e.M.iadd("i", "l")+"))) :pattern ((ssub (ssub a i j) k l)))))")
 }
 
 func (e *Enc) strLit(s string) string {
@@ -367,6 +374,9 @@ func (e *Enc) typeFactsRec(t types.Type, L []string, st *State, fs *[]string) in
 
 // allSorts collects the leaf sorts occurring in memory of type t (without enumerating array elements).
 func (e *Enc) allSorts(t types.Type, out map[Sort]bool) {
+	if isStringsBuilder(t) {
+		out[SStr] = true // ghost: the text written so far lives in the Str cell at the builder's address
+	}
 	switch u := t.Underlying().(type) {
 	case *types.Struct:
 		for i := 0; i < u.NumFields(); i++ {
@@ -381,6 +391,47 @@ func (e *Enc) allSorts(t types.Type, out map[Sort]bool) {
 			}
 		}
 	}
+}
+
+func isStringsBuilder(t types.Type) bool {
+	n, ok := types.Unalias(t).(*types.Named)
+	return ok && n.Obj().Pkg() != nil && n.Obj().Pkg().Path() == "strings" && n.Obj().Name() == "Builder"
+}
+
+// needUTF8 declares the decoding functions of unicode/utf8 (and of range-over-string) with the facts the contracts use:
+// utf8r(s,k), utf8w(s,k): rune and width decoded at byte k; runestr(r): the encoding WriteRune appends.
+// Trusted (documented behaviour of the standard library): an ASCII byte decodes to itself with width 1; any other byte
+// starts a rune >= 0x80 of width 1..4 all of whose bytes are >= 0x80; a valid encoding is reproduced by runestr; an
+// invalid byte decodes to (RuneError, 1), and runestr(RuneError) is the three bytes EF BF BD.
+func (e *Enc) needUTF8() {
+	e.needStr()
+	e.needSsub()
+	m := e.M
+	I := m.smtSort(SI)
+	z := func(n int64) string { return m.ilit(n) }
+	e.prelude("utf8", "(declare-fun utf8r (Str "+I+") "+I+")\n(declare-fun utf8w (Str "+I+") "+I+")\n(declare-fun runestr ("+I+") Str)\n(declare-fun utf8valid (Str "+I+") Bool)\n"+
+		"(assert (forall ((s Str) (k "+I+")) (! (=> (and "+m.ile(z(0), "k")+" "+m.ilt("k", "(slen s)")+") (and "+m.ile(z(1), "(utf8w s k)")+" "+m.ile("(utf8w s k)", z(4))+" "+m.ile(m.iadd("k", "(utf8w s k)"), "(slen s)")+
+		" (=> "+m.ilt("(sat s k)", z(128))+" (and (= (utf8r s k) (sat s k)) (= (utf8w s k) "+z(1)+") (utf8valid s k)))"+
+		" (=> "+m.ile(z(128), "(sat s k)")+" (and "+m.ile(z(128), "(utf8r s k)")+" "+m.ile("(utf8r s k)", z(1114111))+"))"+
+		" (=> (not (utf8valid s k)) (and (= (utf8r s k) "+z(65533)+") (= (utf8w s k) "+z(1)+")))"+
+		" (=> (utf8valid s k) (= (runestr (utf8r s k)) (ssub s k "+m.iadd("k", "(utf8w s k)")+")))"+
+		")) :pattern ((utf8w s k)) :pattern ((utf8r s k)))))\n"+
+		"(assert (forall ((s Str) (k "+I+") (j "+I+")) (! (=> (and "+m.ile(z(0), "k")+" "+m.ilt("k", "(slen s)")+" "+m.ile(z(128), "(sat s k)")+" "+m.ile("k", "j")+" "+m.ilt("j", m.iadd("k", "(utf8w s k)"))+") "+m.ile(z(128), "(sat s j)")+") :pattern ((utf8w s k) (sat s j)))))\n"+
+		"(assert (forall ((r "+I+")) (! (and "+m.ile(z(1), "(slen (runestr r))")+" "+m.ile("(slen (runestr r))", z(4))+
+		" (=> (and "+m.ile(z(0), "r")+" "+m.ilt("r", z(128))+") (and (= (slen (runestr r)) "+z(1)+") (= (sat (runestr r) "+z(0)+") r)))"+
+		" (=> (not (and "+m.ile(z(0), "r")+" "+m.ilt("r", z(128))+")) (and "+m.ile(z(128), "(sat (runestr r) "+z(0)+")")+" "+m.ile(z(2), "(slen (runestr r))")+"))"+
+		") :pattern ((runestr r)))))\n"+
+		"(assert (forall ((r "+I+") (j "+I+")) (! (=> (and (not (and "+m.ile(z(0), "r")+" "+m.ilt("r", z(128))+")) "+m.ile(z(0), "j")+" "+m.ilt("j", "(slen (runestr r))")+") "+m.ile(z(128), "(sat (runestr r) j)")+") :pattern ((sat (runestr r) j)))))\n"+
+		"(assert (forall ((s Str) (i "+I+")) (! (=> (and "+m.ile(z(0), "i")+" "+m.ilt("i", "(slen s)")+") (and (= (utf8r (ssub s i (slen s)) "+z(0)+") (utf8r s i)) (= (utf8w (ssub s i (slen s)) "+z(0)+") (utf8w s i)) (= (utf8valid (ssub s i (slen s)) "+z(0)+") (utf8valid s i)))) :pattern ((utf8w (ssub s i (slen s)) "+z(0)+")) :pattern ((utf8r (ssub s i (slen s)) "+z(0)+")))))\n"+
+		"(assert (and (= (slen (runestr "+z(65533)+")) "+z(3)+") (= (sat (runestr "+z(65533)+") "+z(0)+") "+z(239)+") (= (sat (runestr "+z(65533)+") "+z(1)+") "+z(191)+") (= (sat (runestr "+z(65533)+") "+z(2)+") "+z(189)+")))")
+}
+
+// needBytestr: the one-byte string.
+func (e *Enc) needBytestr() {
+	e.needStr()
+	m := e.M
+	I := m.smtSort(SI)
+	e.prelude("bytestr", "(declare-fun bytestr ("+I+") Str)\n(assert (forall ((c "+I+")) (! (and (= (slen (bytestr c)) "+m.ilit(1)+") (=> (and "+m.ile(m.ilit(0), "c")+" "+m.ile("c", m.ilit(255))+") (= (sat (bytestr c) "+m.ilit(0)+") c))) :pattern ((bytestr c)))))")
 }
 
 // ---- memory ----
@@ -1191,6 +1242,13 @@ func (e *Enc) cover(kind, anchor string, reach string) {
 		return
 	}
 	name := fmt.Sprintf("%s#%s@%s", e.fnName, kind, anchor)
+	if kind == "cover" && e.Ct != nil && e.Ct.Dead[anchor] {
+		// the contract claims this return is dead code: prove it
+		o := &Obligation{Name: fmt.Sprintf("%s#dead@%s", e.fnName, anchor), Func: e.fnName, Kind: "dead", Backend: "smt", Descr: "this return is unreachable"}
+		o.SMT = e.query(e.curBlock, reach)
+		e.obls = append(e.obls, o)
+		return
+	}
 	o := &Obligation{Name: name, Func: e.fnName, Kind: kind, Backend: "smt", Expect: "sat"}
 	o.SMT = e.query(e.curBlock, reach)
 	e.obls = append(e.obls, o)
